@@ -55,6 +55,29 @@ C19.derives: the derives rasn needs are always present (REQUIRED_DERIVES), user 
         }
     }
     ctx.sample(json!({"config_readers": readers}));
+    // state derived from an option (Rasn fields other than the config and the two module defaults): same who-may-read rule
+    if let Ok(st) = m.find_struct("Rasn", Some("generator::rasn")) {
+        for (fld, _, _) in st.fields.iter().filter(|(n, _, _)| !["config", "tagging_environment", "extensibility_environment"].contains(&n.as_str())) {
+            let allowed: BTreeSet<String> = audit["derived"][fld]["readers"].as_array().cloned().unwrap_or_default().iter().filter_map(|v| v.as_str().map(|s| s.to_string())).collect();
+            let mut got: BTreeSet<String> = BTreeSet::new();
+            for f in m.fns.iter().filter(|f| f.module.starts_with("generator::rasn") && !f.module.contains("tests")) {
+                if tok(&f.block).contains(&format!("self.{}", fld)) {
+                    got.insert(f.name.clone());
+                }
+            }
+            for r in &got {
+                ctx.oblige("C19.reads", &format!("derived:{}:{}", fld, r), true);
+                if !allowed.contains(r) {
+                    let f = m.fns.iter().find(|f| f.name == *r && f.module.starts_with("generator::rasn"));
+                    ctx.violate("C19.reads", &format!("derived:{}:{}", fld, r), f.map(|f| f.file.as_str()).unwrap_or(""), f.map(|f| f.line).unwrap_or(0),
+                        &format!("`{}` reads `self.{}` (derived from the option `{}`); its documented effect is confined to {:?} — an option that only adds attributes must not decide what else is generated", r, fld, audit["derived"][fld]["from"].as_str().unwrap_or("?"), allowed));
+                }
+            }
+            if got.is_empty() {
+                ctx.violate("C19.reads", &format!("derived:{}:unread", fld), &st.file, st.line, &format!("the backend field `{}` is never read", fld));
+            }
+        }
+    }
 
     no_std(m, ctx, "C19.delta");
     from_impls(m, ctx);
